@@ -34,7 +34,25 @@ def layout_change(a, b):
     return "`%s` line => `%s` line" % (ta[0] if ta else "", tb[0] if tb else "")
 
 
+def lit_features(e):
+    body = e.get("body", [])
+    feats = []
+    if e.get("kind") == "longlit":
+        if "CR" in body:
+            feats.append("contains CR")
+    elif e.get("kind") == "strlit":
+        raw_nl = any(c in ("LF", "CR") and (i == 0 or body[i - 1] != "BS") for i, c in enumerate(body))
+        if raw_nl:
+            feats.append("raw newline admitted after an escape")
+    else:
+        feats.append(e.get("syntax", ""))
+    return ",".join(feats)
+
+
 def signature(pid, what, source, case, events):
+    lit = _ev(events, "Lit")
+    if lit:
+        return "%s|%s|%s|%s" % (source, what, lit.get("kind"), lit_features(lit))
     f, r, x = _ev(events, "Format"), _ev(events, "Reparse"), _ev(events, "Reformat")
     meta = case.get("meta", {}) or {}
     tag = meta.get("sig") or ""
@@ -60,6 +78,10 @@ def signature(pid, what, source, case, events):
 
 def example(rec):
     case, events = rec["case"], rec["events"]
+    lit = _ev(events, "Lit")
+    if lit:
+        vs = [(v.get("out"), v.get("cfgs", [{}])[0]) for v in lit.get("variants", [])]
+        return "input=%r syntax=%s outputs=%r" % (lit.get("src"), lit.get("syntax"), vs[:4])
     rd, f, r, x = _ev(events, "Render"), _ev(events, "Format"), _ev(events, "Reparse"), _ev(events, "Reformat")
     src = rd.get("src") or case.get("src") or case.get("src_file") or case.get("id")
     out = f.get("out", "")
